@@ -176,7 +176,16 @@ deriving DecidableEq, Repr
 structure Cfg where
   overwrite : Overwrite
   cacheOnly : Bool
+  /-- how `'improved'` treats a *tie*: the code has `con["score"] < old_con["score"]` (`false`);
+      `<=` (`true`) would be an equally good policy.  Every theorem holds for both values, and the
+      harness tells the model which one the implementation exhibits, so that a change of the
+      tie-break is not reported. -/
+  tieReplace : Bool := false
 deriving DecidableEq, Repr
+
+/-- "the new path is better" -/
+def better (cfg : Cfg) (ans old : Con) : Bool :=
+  ans.score < old.score || (cfg.tieReplace && ans.score == old.score)
 
 structure St (K : Type) where
   dd : DD K
@@ -211,7 +220,7 @@ def maybeRun (cfg : Cfg) (k : K) (ans : Con) (s : St K) : St K × Res :=
       else ({ dd := dd.set k ans, searches := s.searches + 1 }, .ok true ans)
     | .improved =>
       if cfg.cacheOnly then ({ s with dd := dd }, .keyError)
-      else if ans.score < old.score then
+      else if better cfg ans old then
         ({ dd := dd.set k ans, searches := s.searches + 1 }, .ok true ans)
       else
         -- use the old path; "need flag that we can't use the last run"
